@@ -265,6 +265,11 @@ def rule_g6(chk: Check) -> None:
 def run(chk: Check) -> None:
     rule_g(chk)
     rule_g6(chk)
+    from .c03 import option_wiring
+
+    chk.rule("G7", "the redirect budget reaches the client as given: every GeminiClient construction passes max_redirects as the caller's own option, a literal or the default (0 is a valid budget)")
+    option_wiring(chk, "G7", "max_redirects", "a budget of 0 (falsy) becomes the default and the fetch opens more connections than the caller allowed")
+
     from .c03 import rule_t6
 
     before = len(chk.findings)
